@@ -62,7 +62,7 @@ def main():
 def default_evidence(rep, pid, tier, seed, wall):
     from llsym import smt
     goals = [g for it in rep.items for g in it.get("goals", [])]
-    solver_goals = [g for g in goals if g.get("solver_calls", 0) > 0 or g.get("kind") == "polynomial identity mod p"]
+    solver_goals = [g for g in goals if g.get("solver_calls", 0) > 0 or g.get("kind") == "polynomial identity mod p" or g.get("nontrivial")]
     samples = []
     for it in rep.items[:6]:
         samples.append(dict(harness=it.get("harness"), bounds=it.get("bounds"), status=it.get("status"),
@@ -70,7 +70,7 @@ def default_evidence(rep, pid, tier, seed, wall):
     return dict(property_id=pid, tier=tier, seed=seed, level=getattr(rep, "level", "model_checking"),
         coverage=dict(
             evaluations=len(goals), distinct_nontrivial=len(solver_goals),
-            rule="one evaluation = one proof obligation over symbolic inputs; non-trivial = needed at least one SMT solver call, or is a polynomial identity over GF(p) decided by normal-form computation on the symbolic execution result (structural conditions and obligations closed by interval arithmetic alone are not counted); distinct by (harness, path, goal)",
+            rule="one evaluation = one proof obligation over symbolic inputs; non-trivial = needed at least one SMT solver call, or is a polynomial identity over GF(p) decided by normal-form computation on the symbolic execution result (structural conditions and obligations closed by interval arithmetic alone are not counted), or is a whole-execution obligation the check marks as such - a complete symbolic execution over abstract inputs that had to establish at least one data-dependent fact (C10: operations on secret data with at least one branch/address shown public; C13/C14: a polynomial identity or an erasure/dataflow fact on a path with symbolic content); distinct by (harness, path, goal)",
             programs=len(rep.functions), disagreements_checked=len(goals),
             samples=samples, obligations=len(goals), discharged=len([g for g in goals if g["verdict"] == "unsat"]),
             functions_encoded=sorted(rep.functions), configurations=sorted(rep.configs),
